@@ -313,11 +313,17 @@ pub mod csv {
             let file = csv_w.into_inner().map_err(|e| e.to_string())?;
             file.sync_all().map_err(|e| e.to_string())?;
             drop(file);
+            #[cfg(feature = "verif_hooks")]
+            verif_crash::step("after_sync");
             let renamed = std::fs::rename(
                 rates_csv_tmp_file_path(&self.dir_path, year),
                 rates_csv_file_path(&self.dir_path, year),
             )
             .map_err(|e| e.to_string());
+            #[cfg(feature = "verif_hooks")]
+            if renamed.is_ok() {
+                verif_crash::step("after_rename");
+            }
             renamed
         }
 
